@@ -158,11 +158,19 @@ func (p *bboltStore) GetById(s string) (*SwapStateMachine, error) {
 		return nil, ErrDoesNotExist
 	}
 
+	return decodeSwap(jData)
+}
+
+// decodeSwap decodes a stored swap record. The id the swap data was created
+// with is not written with the data, it is the id of the record itself.
+func decodeSwap(jData []byte) (*SwapStateMachine, error) {
 	swap := &SwapStateMachine{}
 	if err := json.Unmarshal(jData, swap); err != nil {
 		return nil, err
 	}
-
+	if swap.Data != nil {
+		swap.Data.swapId = swap.SwapId
+	}
 	return swap, nil
 }
 
@@ -180,8 +188,8 @@ func (p *bboltStore) ListAll() ([]*SwapStateMachine, error) {
 	var swaps []*SwapStateMachine
 	err = b.ForEach(func(k, v []byte) error {
 
-		swap := &SwapStateMachine{}
-		if err := json.Unmarshal(v, swap); err != nil {
+		swap, err := decodeSwap(v)
+		if err != nil {
 			return err
 		}
 		swaps = append(swaps, swap)
@@ -207,8 +215,8 @@ func (p *bboltStore) ListAllByPeer(peer string) ([]*SwapStateMachine, error) {
 
 	var swaps []*SwapStateMachine
 	err = b.ForEach(func(k, v []byte) error {
-		swap := &SwapStateMachine{}
-		if err := json.Unmarshal(v, swap); err != nil {
+		swap, err := decodeSwap(v)
+		if err != nil {
 			return err
 		}
 		if swap.Data.PeerNodeId == peer {
